@@ -11,9 +11,10 @@ import random
 
 PROPERTY = "C04"
 RULE = (
-    "case = (model batch in {(),(2)}, fantasy pattern in {(m), (f,m) shared inputs, (f,m) per-fantasy inputs, (f,b,m)}, likelihood in "
-    "{gauss, fixed(noise kw), fixed+learn, Kronecker multitask}, depth 1..3 (fantasies of fantasies), fast_pred_var, detach_test_caches, "
-    "NaN-free, seed); distinct = cell without seed; non-trivial iff the fantasy posterior differs from the source posterior by > 1e-3"
+    'case = (model batch in {(),(2)}, fantasy pattern in {(m), (f,m) shared inputs, (f,m) per-fantasy inputs, (f,b,m)}, likelihood in {gauss, '
+    'fixed(noise kw), fixed+learn, Kronecker multitask}, model lists with mixed member likelihoods and per-member noise, KISS-GP (interpolated '
+    'strategy) fantasies, depth 1..3 (fantasies of fantasies), fast_pred_var, detach_test_caches, NaN-free, seed); distinct = cell without seed; '
+    'non-trivial iff the fantasy posterior differs from the source posterior by > 1e-3'
 )
 REQUIRED = ["fantasy_mean", "fantasy_covar", "fantasy_mean_cache", "fantasy_root_decomposition", "fantasy_root_inv_decomposition", "source_untouched", "monitor:get_fantasy_strategy"]
 ASSUMPTIONS = ["noise of the concatenated data is assembled from public parameters (sigma^2; stored fixed noise followed by the call-time fantasy noise [+ learned sigma^2])"]
